@@ -171,6 +171,8 @@ type client struct {
 	port  int
 	altIP string
 	node  *simhost.Node
+
+	announceVictim bool
 }
 
 // ---- wire helpers ---------------------------------------------------------------------------
